@@ -179,7 +179,8 @@ theorem bank_step_get (cfg : Cfg) (st : State) (i : In) (hr : i.rst = false) (j 
 theorem regStep_not_selected (fixed : Bool) (aw : Nat) (r : Reg) (s : RegSt) (h : Hw) (rd : Bool) (addr data strb : Nat) :
     (regStep fixed aw r s h rd false addr data strb).mem = s.mem ∧
     (regStep fixed aw r s h rd false addr data strb).tx = s.tx ∧
-    (regStep fixed aw r s h rd false addr data strb).aux = s.aux := by
+    (regStep fixed aw r s h rd false addr data strb).aux = s.aux ∧
+    (regStep fixed aw r s h rd false addr data strb).words = s.words := by
   simp [regStep]
 
 end CohdlVerif.C20
@@ -226,6 +227,27 @@ theorem regStep_register_flag (aw : Nat) (r : Reg) (s : RegSt) (h : Hw) (rd : Bo
   simp only [regValue, hk, Nat.testBit_or, Nat.testBit_and, Nat.testBit_xor, hm, hd, hmm, Bool.and_false, Bool.and_true,
     Bool.false_or, Bool.or_false]
   cases strobed strb b <;> cases data.testBit b <;> cases s.tx.testBit b <;> cases s.rx.testBit b <;> simp
+
+theorem regStep_output (fixed : Bool) (aw : Nat) (r : Reg) (s : RegSt) (h : Hw) (rd : Bool) (addr data strb : Nat)
+    (hk : r.kind = .output) (b : Nat) (hb : b < 32) (hm : r.memMask.testBit b = true) :
+    (regStep fixed aw r s h rd true addr data strb).mem.testBit b =
+      (if strobed strb b then data.testBit b else s.mem.testBit b) := by
+  simp only [regStep, hk, Bool.not_true, Bool.false_eq_true, if_false, Nat.testBit_and, hm, Bool.and_true]
+  exact testBit_applyMask_stretch _ _ _ b hb
+
+theorem regStep_memory (fixed : Bool) (aw : Nat) (r : Reg) (s : RegSt) (h : Hw) (rd : Bool) (addr data strb : Nat)
+    (hk : r.kind = .memory) (w : Nat) (b : Nat) (hb : b < 32) (hw : w < s.words.length) :
+    ((regStep fixed aw r s h rd true addr data strb).words.getD w 0).testBit b =
+      (if w = relAddr aw r addr / 4 then
+         (if strobed strb b then data.testBit b else (s.words.getD w 0).testBit b)
+       else (s.words.getD w 0).testBit b) := by
+  simp only [regStep, hk, Bool.not_true, Bool.false_eq_true, if_false]
+  by_cases he : w = relAddr aw r addr / 4
+  · subst he
+    simp only [if_true, List.getD_eq_getElem?_getD, List.getElem?_set_self hw, Option.getD_some]
+    rw [testBit_applyMask_stretch _ _ _ b hb]
+  · simp only [he, if_false, List.getD_eq_getElem?_getD]
+    rw [List.getElem?_set_ne (Ne.symm he)]
 
 theorem regStep_notify (fixed : Bool) (aw : Nat) (r : Reg) (s : RegSt) (h : Hw) (rd wr : Bool) (addr data strb : Nat)
     (hk : r.kind = .register) :
